@@ -372,6 +372,25 @@ lb_kv_i(struct lb *l, const char *key, long long val)
 	lb_long(l, val);
 }
 
+/*
+ * st_mtim of a successful fstatat (the only stat field mdsort's file-system code uses): RUN for a file
+ * modified after this process started (not reproducible), else seconds.nanoseconds.
+ */
+static void
+lb_stat_mtime(struct lb *l, long long sec, long nsec)
+{
+	char tmp[64];
+
+	lb_key(l, "st_mtime");
+	if (g_have_time && (sec > g_start.tv_sec ||
+	    (sec == g_start.tv_sec && nsec >= g_start.tv_nsec))) {
+		lb_puts(l, "RUN");
+	} else {
+		snprintf(tmp, sizeof(tmp), "%lld.%09ld", sec, nsec);
+		lb_puts(l, tmp);
+	}
+}
+
 static void
 lb_begin(struct lb *l, const struct call *c)
 {
@@ -1600,6 +1619,8 @@ lstat64(const char *path, struct stat64 *sb)
 		lb_dir(&l, "dirfd", "dir", dfd);			\
 		lb_kv_s(&l, "path", path);				\
 		lb_atflags(&l, flags);					\
+		if (r == 0)						\
+			lb_stat_mtime(&l, sb->st_mtim.tv_sec, sb->st_mtim.tv_nsec); \
 		lb_result(&l, r, r == -1, e);				\
 		lb_end(&l, &c);						\
 	}								\
